@@ -10,6 +10,10 @@ def run(tier, seed, verdict):
     runs = [mr.ModelRun("MC_C20_quick.cfg" if quick else "MC_C20.cfg", seed, probes=probes, name_pools=[0, 1, 2],
                         stride=2 if quick else 3),
             mr.ModelRun("MC_C20_mut.cfg", seed + 1, probes=probes, name_pools=[0, 2], stride=6 if quick else 1)]
+    # an id-keeping duplicate inside the block (two entities, one id), then - among all single calls - the fresh-id
+    # copy of the whole block
+    runs.append(mr.ModelRun("MC_C20_dupid.cfg", seed + 3, probes=("reopen", "lookups"), name_pools=[0, 1], stride=1,
+                            accept=lambda tx: len(tx["hist"]) >= 18 and tx["act"]["name"] in ("Copy", "SetAttr", "WriteData")))
     if not quick:
         runs.append(mr.ModelRun("MC_C20_keep.cfg", seed + 2, probes=("reopen", "xcopy"), name_pools=[0, 1], stride=1))
     return run_property(
